@@ -179,6 +179,18 @@ Theorem C16_check_seq_sound : forall steps : list step,
                    end) steps.
 Proof. exact check_seq_sound. Qed.
 
+(* about the DOUBLES: the laws above are theorems about the real-valued definitions; the returned doubles can break
+   each of them in the last place (mutual_information('1000101011','0122111022') = -4.4e-16) and are shown only to
+   lie within 2^-30 of the reals.  What passing cases give for the doubles themselves: *)
+Theorem C16_mi_double_lower : forall (X Y : list sym) (ref : refs) (m e : Z), X <> [] -> length X = length Y ->
+  check_case (CMI X Y ref (Ok (Some (m, e)))) = true -> - / IZR (2 ^ 30) <= dblR m e.
+Proof. exact mi_double_lower. Qed.
+
+Theorem C16_mi_double_symm : forall (X Y : list sym) (r1 r2 : refs) (m e m' e' : Z), X <> [] -> length X = length Y ->
+  check_case (CMI X Y r1 (Ok (Some (m, e)))) = true -> check_case (CMI Y X r2 (Ok (Some (m', e')))) = true ->
+  Rabs (dblR m e - dblR m' e') <= 2 * / IZR (2 ^ 30).
+Proof. exact mi_double_symm. Qed.
+
 (* ---- non-vacuity ---- *)
 
 (* the exact layer on concrete inputs: multi-character and negative states stay whole symbols;
@@ -210,8 +222,8 @@ Proof. exact shannon_0011. Qed.
 Example C16_nonvacuous_interval :
   within prec80 (shannonI prec80 Z.eq_dec tab80 [0; 0; 1; 1]%Z) 1 0 = true
   /\ within prec80 (shannonI prec80 Z.eq_dec tab80 [0; 0; 1; 1]%Z) (2 ^ 29 + 1) (-29) = false
-  /\ check_case (CAMI [[10; 1]; [1; 10]; [10; 1]; [0; -1]]%Z 4 [] (Raise ValueError)) = true
-  /\ check_case (CShannon [[48]; [48]; [49]; [49]]%Z [2; 2]%nat (Ok (Some (1, 0)%Z))) = true.
+  /\ check_case (CAMI [[10; 1]; [1; 10]; [10; 1]; [0; -1]]%Z 4 None (Raise ValueError)) = true
+  /\ check_case (CShannon [[48]; [48]; [49]; [49]]%Z (Some [([2; 2], [], [], 4)]%nat) (Ok (Some (1, 0)%Z))) = true.
 Proof. vm_compute. repeat (split; [reflexivity|]). reflexivity. Qed.
 
 Print Assumptions C16_shannon_is_definition.
@@ -238,3 +250,5 @@ Print Assumptions C16_table_sound.
 Print Assumptions C16_within_sound.
 Print Assumptions C16_check_case_sound.
 Print Assumptions C16_check_seq_sound.
+Print Assumptions C16_mi_double_lower.
+Print Assumptions C16_mi_double_symm.
